@@ -181,6 +181,8 @@ pub struct RunOpts {
     pub budget: Option<usize>,
     /// mirror of the fringe length readable from a scheduler callback
     pub len_mirror: Option<Arc<AtomicUsize>>,
+    /// event-triggered cutoff (set by the scheduler)
+    pub cut_trigger: Option<Arc<AtomicBool>>,
 }
 
 pub type RunOut = RunOutG<St>;
@@ -324,6 +326,7 @@ pub fn run_core<S: StateT>(core: &Core<S>, dd: DdKind, cache: CacheKind, fringe_
     let dom = RecDom { inner: core.dom, log: log.clone(), yield_hook: fine.clone() };
     let mut cut = CountCut::new(opts.fire_at, opts.budget.unwrap_or(core.budget), log.clone());
     cut.yield_hook = fine.clone();
+    cut.trigger = opts.cut_trigger.clone();
     let cut = Arc::new(cut);
     let dynrank = DynRank(rank);
     let mut f_simple = SimpleFringe::new(MaxUB::new(&dynrank));
